@@ -58,3 +58,51 @@ Lemma frac_witness :
   | _ => False
   end /\ numa_nodes frac_info = [].
 Proof. split; vm_compute; reflexivity. Qed.
+
+(* ---------- the positive part: no NUMA, whole cores, same whole number of cores ---------- *)
+From Verif Require Import Cobalt.AffinityProofs.
+
+Theorem realloc_keeps_cores sortf (info : node_info) (base maxshare : Z) (origin : wres) (raw nr : wreq)
+    (fuel : nat) (new d : wres) :
+  0 < base ->
+  nr_numa (ni_cap info) = [] ->
+  rq_keep raw = true ->
+  wr_cpumap origin <> [] -> NoDup (keys (wr_cpumap origin)) ->
+  (forall c v, In (c, v) (wr_cpumap origin) -> v = base) ->
+  (* after the origin is put back its cores are whole free cores *)
+  NoDup (keys (nr_cpumap (get_available_nofloat (put_back info origin)))) ->
+  (forall c, In c (keys (wr_cpumap origin)) ->
+             lookup_opt (nr_cpumap (get_available_nofloat (put_back info origin))) c = Some base) ->
+  (* no cpu change: the validated new request asks for as many whole cores as the origin holds *)
+  wreq_validate (realloc_newreq origin raw) = inr nr ->
+  pieces_request base (rq_cpu_req nr) = base * Z.of_nat (List.length (wr_cpumap origin)) ->
+  calculate_realloc_g sortf info base maxshare origin raw [] fuel = Ok (inr (new, d)) ->
+  wr_numanode new = EmptyString /\ forall k, lookup_opt (wr_cpumap new) k = lookup_opt (wr_cpumap origin) k.
+Proof.
+  intros Hb Hn Hk Hne Hnd Hbase Hav Hfree V Hreq.
+  unfold calculate_realloc_g. rewrite V.
+  assert (B : realloc_bind origin raw = true).
+  { unfold realloc_bind. rewrite Hk. destruct (wr_cpumap origin); [congruence|reflexivity]. }
+  rewrite B.
+  destruct (get_cpu_plans_g sortf (put_back info origin) (wr_cpumap origin) base maxshare nr [] fuel) as [plans| | |] eqn:P;
+    cbn [bind]; try discriminate.
+  assert (F := first_plan_is_origin sortf base maxshare (put_back info origin) (wr_cpumap origin) nr fuel).
+  repeat match type of F with
+         | ?A -> _ => let H := fresh in assert (H : A) by assumption; specialize (F H); clear H
+         end.
+  destruct (F plans P) as [->|[p [rest [-> L]]]].
+  - discriminate.
+  - intro E. injection E as <- _. simpl. split; [reflexivity|exact L].
+Qed.
+
+(* the hypotheses are satisfiable: 4 whole cores, a workload on cores 2 and 3, +50 memory *)
+Example realloc_keeps_cores_example :
+  let cap := mkNR (f_of_Z 4) [("0", 100); ("1", 100); ("2", 100); ("3", 100)] 4000 [] [] in
+  let usage := mkNR (f_of_Z 2) [("0", 0); ("1", 0); ("2", 100); ("3", 100)] 100 [] [] in
+  let origin := mkWR (f_of_Z 2) (f_of_Z 2) 100 100 [("2", 100); ("3", 100)] [] "" in
+  let raw := mkReq false true f_zero f_zero 50 50 in
+  match calculate_realloc (mkNI cap usage) 100 (-1) origin raw [] (default_fuel (put_back (mkNI cap usage) origin)) with
+  | Ok (inr (new, _)) => keeps_cores origin new = true /\ wr_mem_req new = 150
+  | _ => False
+  end.
+Proof. vm_compute. split; reflexivity. Qed.
